@@ -107,7 +107,20 @@ METHOD = {"position": "get_position", "subpoint": "get_lonlatalt", "look": "get_
           "local": "utc2local", "crossing": "get_equatorial_crossing_time"}
 
 
-def invoke(o, desc, args=None, kwargs=None, limit=60):
+class TooManyTimeouts(Exception):
+    pass
+
+
+TIMEOUTS = []
+
+
+def note_timeout(desc):
+    TIMEOUTS.append(desc)
+    if len(TIMEOUTS) >= 3:
+        raise TooManyTimeouts("queries do not return: %r" % (TIMEOUTS[:3],))
+
+
+def invoke(o, desc, args=None, kwargs=None, limit=20):
     """run one query; returns (canonical result, live result or None)"""
     if args is None:
         args, kwargs = build_args(desc)
@@ -119,6 +132,7 @@ def invoke(o, desc, args=None, kwargs=None, limit=60):
             r = getattr(o, METHOD[desc["q"]])(*args, **kwargs)
         return canon(r), r
     except common.Timeout:
+        note_timeout(desc)
         return ("raise", "Timeout", ""), None
     except Exception as e:  # canonicalised: class and message
         return ("raise", type(e).__name__, str(e)[:200]), None
@@ -179,6 +193,10 @@ def gen_call(rng, ep_us, kinds=None):
 def mk(tle):
     from pyorbital.orbital import Orbital
     return Orbital("X", line1=tle[0], line2=tle[1])
+
+
+def warm_up(o):
+    invoke(o, {"q": "orbit", "t": ["dt", "2015-01-01T00:00:00"], "tbus": False, "as_float": False})
 
 
 class Fresh:
@@ -340,7 +358,7 @@ def dynamic_crosscheck(ctx, facts, tles):
                 for state in ("fresh", "warm", "time_only"):
                     o = mk(tle)
                     if state != "fresh":
-                        o.get_orbit_number(dt.datetime(2015, 1, 1))
+                        warm_up(o)
                     if state == "time_only":
                         del o.orbit_elements.an_period
                     pre_kep = None
@@ -507,11 +525,13 @@ def run_plan(o, plan, record_lines=False):
         finally:
             sys.settrace(None)
 
-    th = threading.Thread(target=target)
+    th = threading.Thread(target=target, daemon=True)
     th.start()
-    th.join(120)
+    th.join(30)
     if th.is_alive():
         plan.result = ("raise", "Timeout", "thread did not finish")
+        if threading.current_thread() is threading.main_thread():
+            note_timeout(plan.desc)
 
 
 def count_lines(tle, desc):
@@ -523,7 +543,7 @@ def count_lines(tle, desc):
 def check_plan(ctx, tle, plan, fresh, tag, warm=False):
     o = mk(tle)
     if warm:
-        o.get_orbit_number(dt.datetime(2015, 1, 1))
+        warm_up(o)
     tle0, tab0 = tle_hash(o), tables_hash()
     run_plan(o, plan)
     threads = plan.all()
@@ -631,14 +651,22 @@ def run(ctx):
     usable = []
     for tle in tles:
         try:
-            o = mk(tle)
-            o.get_orbit_number(dt.datetime(2015, 1, 1))
+            with common.time_limit(20):
+                o = mk(tle)
+                o.get_orbit_number(dt.datetime(2015, 1, 1))
+            usable.append(tle)
+        except common.Timeout:
             usable.append(tle)
         except Exception:
             pass
     tles = usable
     fresh = Fresh()
-    if facts is not None:
-        dynamic_crosscheck(ctx, facts, tles[:ctx.n(2, 4)])
-    history_oracle(ctx, tles, fresh, ctx.n(60, 600))
-    scheduler_oracle(ctx, tles, fresh)
+    del TIMEOUTS[:]
+    try:
+        if facts is not None:
+            dynamic_crosscheck(ctx, facts, tles[:ctx.n(2, 4)])
+        history_oracle(ctx, tles, fresh, ctx.n(60, 600))
+        scheduler_oracle(ctx, tles, fresh)
+    except TooManyTimeouts:
+        ctx.corr_fail("M_Purity: every query is a finite program (terminates) vs Orbital queries that do not return",
+                      {"tle": list(tles[0]), "calls_without_result_after_20s": TIMEOUTS[:3]})
